@@ -90,6 +90,10 @@ package ch
 //@   ensures ctx.hasDl ==> c.conn.arms > old(c.conn.arms) && c.conn.armSec * 1000000000 + c.conn.armNsec <= ctx.dlSec * 1000000000 + ctx.dlNsec {deadline-not-after-context}
 //@   ensures c.readTimeout > 0 ==> c.conn.arms > old(c.conn.arms) {read-timeout-arms-deadline}
 //@   ensures err == nil && c.conn.arms > old(c.conn.arms) ==> c.conn.disarms > old(c.conn.disarms) [C08,C10] {deadline-cleared-before-the-packet-body-is-read}
+//@ -- a packet code that could not be read because the read deadline expired is reported by an error
+//@ -- whose chain still holds the transport's timeout error (so that Do can tell an idle server from
+//@ -- a broken stream)
+//@   ensures err != nil && c.reader.failed && !old(c.reader.failed) ==> err.timeoutIn == rdTmo(c.reader.in, c.reader.pos) [C08] {a-timed-out-packet-read-keeps-the-timeout-in-its-error-chain}
 
 //@ contract (c *Client) decode(v) (err) props(C03,C13)
 //@   requires c != nil && v != nil
@@ -117,6 +121,14 @@ package ch
 //@   requires c != nil && c.protocolVersion >= 54458
 //@   modifies c.writer.buf.Buf, c.addendum
 //@   ensures [abstract] c.addendum
+
+//@ -- C10: a handshake that failed while the caller's context had ended returns an error whose chain
+//@ -- holds the context's error (errors.Is(err, context.Canceled) / DeadlineExceeded works) whatever
+//@ -- the goroutines reported
+//@ contract (c *Client) handshake(ctx) (err) props(C10)
+//@   requires c != nil && ctx != nil
+//@   modifies all(c), all(ctx)
+//@   ensures err != nil && ctx.cancelled ==> err.ctxErrIn {an-aborted-handshake-returns-the-context-error}
 
 //@ contract (c *Client) handshake$2() (err) props(C10,C13)
 //@   requires *c != nil && *ctx != nil && *wgCtx != nil && *cancel != nil && wRI(c.writer) && !c.addendum
@@ -302,6 +314,10 @@ package ch
 //@ -- read timeout sends it back to that check, so a cancelled query is noticed within one timeout), C10
 //@ callsite (*Client).packet
 //@   assert !ctx.cancelled [C04,C10] {a-packet-is-awaited-only-after-the-context-was-found-alive}
+//@ -- read timeouts between packets are retried: the receive loop gives up on a packet error only
+//@ -- if its chain holds no transport timeout (C08)
+//@ callsite errors.Wrap#1
+//@   assert !arg0.timeoutIn [C08] {a-read-timeout-between-packets-never-ends-the-query}
 //@ callsite (*Client).handlePacket
 //@   assert code != 1 && code != 7 && code != 5 [C03] {other-packets-go-to-handlePacket}
 //@ -- the flag that suppresses cancel-and-close is raised only for an error that IS a server
